@@ -3,6 +3,7 @@ package main
 import (
 	"bytes"
 	"fmt"
+	"os"
 	"sort"
 	"strings"
 	"sync"
@@ -603,7 +604,7 @@ func runC08(h *hz.H) {
 		h.Eval(true, 2)
 		return
 	}
-	types := enum.TypesMatching("")
+	types := enum.TypesMatching(os.Getenv("VERIF_TYPES"))
 	var st searchStats
 	mainDepth, otherDepth := 3, 2
 	stateCap := int64(60000)
@@ -616,6 +617,9 @@ func runC08(h *hz.H) {
 		d := otherDepth
 		if md.FullName() == "mx.Ops" {
 			d = mainDepth
+		}
+		if os.Getenv("VERIF_LITE") != "" {
+			d = 2
 		}
 		if h.Thorough() && md.Fields().Len() > 30 {
 			d = 2
